@@ -91,7 +91,7 @@ SubSeqs(s, k) ==      \* all sub-sequences of length <= k of the sequence s, in 
    ELSE LET prev == SubSeqs(s, k - 1) IN
         prev \cup {Append(p, s[i]) : p \in {q \in prev : Len(q) = k - 1}, i \in {j \in 1..Len(s) : TRUE}}
 NoRepeat(cs) == \A i, j \in 1..Len(cs) : i # j => cs[i] # cs[j]
-OpenPool ==
+OpenPool(lazy) ==
    LET K == CapKinds(<<0, 65002>>) IN
    \* AS numbers and hold times x with / without optional parameters
    {Op(a, h, <<10, 0, 0, 2>>, IF a[1] = 0 /\ nocaps THEN <<>> ELSE <<MP(1, 1), As4Cap(a)>>, "each") : a \in AsPool, h \in HoldPool, nocaps \in BOOLEAN}
@@ -99,6 +99,10 @@ OpenPool ==
    \* every capability alone, every ordered pair and triple, in every packaging
    \cup {Op(<<0, 65002>>, 90, <<10, 0, 0, 2>>, cs, p) : cs \in {c \in SubSeqs(K, 3) : NoRepeat(c)}, p \in Packs}
    \cup {Op(<<0, 65002>>, 90, <<10, 0, 0, 2>>, <<c>>, p) : c \in MoreCaps(<<0, 65002>>), p \in {"each"}}
+   \* list-valued capabilities (multiprotocol, add-path, extended next hop, LLGR) given as SEVERAL TLVs of the same code
+   \* (RFC 5492 section 4), adjacent and separated by another capability, in every packaging
+   \cup UNION {{Op(<<0, 65002>>, 90, <<10, 0, 0, 2>>, cs, p) : cs \in {<<K[i], y>>, <<y, K[i]>>, <<K[i], <<2, <<>>>>, y>>, <<y, As4Cap(<<0, 65002>>), K[i]>>}, p \in Packs}
+               : i \in {j \in 1..Len(K) : K[j][1] \in {1, 69, 5, 71}}, y \in {m \in MoreCaps(<<0, 65002>>) : m[1] \in {1, 69, 5, 71}}} 
    \* all kinds together, forwards and backwards
    \cup {Op(<<0, 65002>>, 90, <<10, 0, 0, 2>>, K, p) : p \in Packs}
    \cup {Op(<<1, 4464>>, 90, <<10, 0, 0, 2>>, [i \in 1..Len(K) |-> CapKinds(<<1, 4464>>)[Len(K) + 1 - i]], p) : p \in Packs}
@@ -113,8 +117,8 @@ OpenRtFor(a) ==
    {Op(a, h, i, c1 \o c2 \o c3 \o c4 \o c5 \o c6 \o c7, "each") :
         h \in {0, 3, 65535}, i \in {<<10, 0, 0, 1>>, <<255, 255, 255, 254>>},
         c1 \in CC[1], c2 \in CC[2], c3 \in CC[3], c4 \in (IF a[1] = 0 THEN CC[4] ELSE {<<As4Cap(a)>>}), c5 \in CC[5], c6 \in CC[6], c7 \in CC[7]}
-OpenRtPool == UNION {OpenRtFor(a) : a \in {<<0, 1>>, <<0, 65535>>, <<1, 0>>, <<65535, 65535>>}}
-NotifPool == {[code |-> c, sub |-> s, data |-> Zeros(n)] : c \in {0, 1, 2, 3, 4, 5, 6, 7, 255}, s \in {0, 1, 2, 3, 4, 5, 6, 7, 8, 9, 10, 11, 255}, n \in 0..3}
+OpenRtPool(lazy) == UNION {OpenRtFor(a) : a \in {<<0, 1>>, <<0, 65535>>, <<1, 0>>, <<65535, 65535>>}}
+NotifPool(lazy) == {[code |-> c, sub |-> s, data |-> Zeros(n)] : c \in {0, 1, 2, 3, 4, 5, 6, 7, 255}, s \in {0, 1, 2, 3, 4, 5, 6, 7, 8, 9, 10, 11, 255}, n \in 0..3}
               \cup {[code |-> 2, sub |-> 2, data |-> <<253, 234>>], [code |-> 6, sub |-> 2, data |-> [i \in 1..60 |-> i]]}
-RRPool == {[typ |-> t, afi |-> a, res |-> r, safi |-> s] : t \in {5, 128}, a \in {0, 1, 2, 25, 16388, 65535}, r \in {0, 1, 255}, s \in {0, 1, 2, 4, 70, 71, 73, 128, 133, 255}}
+RRPool(lazy) == {[typ |-> t, afi |-> a, res |-> r, safi |-> s] : t \in {5, 128}, a \in {0, 1, 2, 25, 16388, 65535}, r \in {0, 1, 255}, s \in {0, 1, 2, 4, 70, 71, 73, 128, 133, 255}}
 =============================================================================
